@@ -184,6 +184,10 @@ def binop(eng, op, a, b):
         return seq_repeat(eng, a, b)
     if isinstance(a, ConcreteList) and isinstance(b, ConcreteList) and op == 'Add':
         return ConcreteList(list(a) + list(b))
+    if isinstance(a, list) and len(a) == 1 and op == 'Mult' and isinstance(b, SV) and b.ty == TInt:
+        # [x] * n with a symbolic n: n references to the one element (an immutable view: len / iteration / indexing)
+        n_ = z3.If(b.e > 0, b.e, z3.IntVal(0))
+        return IterV(n_, lambda i, _x=a[0]: _x)
     x, y = eng.num(a), eng.num(b)
     conc = isinstance(x, (int, float)) and isinstance(y, (int, float))
     if op == 'Add':
